@@ -109,6 +109,7 @@ pub fn hl_sets(b: &Bounds) -> Vec<HlSet> {
         let titles = corpus_ecommerce_titles();
         for l in LANGS {
             let mut v = long_word_titles(l);
+            v.push(long_text(30, 7));
             for (i, t) in titles.iter().enumerate() {
                 v.push(t.clone());
                 v.push(super::c15::decorate(l, t, 1 + (i as u64 % 3)));
